@@ -104,11 +104,13 @@ pub fn unicode(max: usize) -> impl Strategy<Value = String> {
   vec(mixed_char(), 0..=max).prop_map(|v| v.into_iter().collect())
 }
 
-const SPECIALS: [&str; 44] = [
+const SPECIALS: [&str; 54] = [
   "", ".", "..", "\0", "a.b", "=", "==", "é", "😀", " ", "\u{feff}", "v4.local.", "AAAA", "null", "{}", "\"", "\u{0}\u{0}", "\u{10ffff}",
   "\\", "\u{2028}", "\u{d7ff}", "\u{e000}", "\u{ffff}", "\u{fffd}", "%00", "\r\n", "\t", "a\u{301}", "\u{200b}", "\u{202e}abc", "true", "0", "-0", "1e400", "[]",
   "{\"a\":1}", "\u{7f}", "\u{80}", "\u{7ff}\u{800}", "\u{1}\u{1f}",
   "\u{feff}{\"a\":1}", "\u{feff}abc", " {\"a\":1} ", "abc\n",
+  // normalisation and case-mapping corner cases: NFC vs NFD, sharp s, dotted capital I, long s, Kelvin sign, ligature, titlecase digraph
+  "\u{e9}", "e\u{301}", "\u{df}", "\u{130}", "\u{17f}", "\u{212a}", "\u{fb01}", "\u{1c5}", "\u{3a3}\u{3c2}", "\u{1e9e}",
 ];
 
 pub fn special() -> impl Strategy<Value = String> {
@@ -198,6 +200,9 @@ pub fn json_leaf() -> BoxedStrategy<Value> {
     2 => any::<u64>().prop_map(|i| serde_json::json!(i)),
     2 => (-1000i64..1000).prop_map(|i| serde_json::json!(i)),
     2 => exact_float().prop_map(|f| serde_json::Number::from_f64(f).map(Value::Number).unwrap_or(Value::Null)),
+    1 => prop_oneof![Just(0.0f64), Just(-0.0f64), Just(1.0), Just(-1.0), Just(1e15), Just(1e-7), Just(u64::MAX as f64), Just(f64::MAX), Just(f64::MIN_POSITIVE)].prop_map(|f| serde_json::Number::from_f64(f).map(Value::Number).unwrap_or(Value::Null)),
+    1 => prop_oneof![Just(i64::MIN), Just(i64::MAX), Just(-1i64), Just(0i64)].prop_map(|i| serde_json::json!(i)),
+    1 => prop_oneof![Just(u64::MAX), Just(i64::MAX as u64 + 1), Just(1u64 << 53), Just((1u64 << 53) + 1)].prop_map(|i| serde_json::json!(i)),
     4 => short_text().prop_map(|t| Value::String(t.render())),
   ]
   .boxed()
